@@ -71,8 +71,17 @@ def main(chk):
                             info['potential_on_subregion'] = list(subs[0])
                     if rng.random() < 0.3:
                         total = rng.choice([3.0, 77.0]); rg.total = total; info['total'] = total; info['total_reassigned'] = True     # as LocalInference does with a ready-made oracle
-                    mu = rg.belief_propagation(CliqueVector(pots))
+                    saved = {r: np.array(pots[r].values, dtype=float, copy=True) for r in pots}
+                    cv = CliqueVector(pots)
+                    mu = rg.belief_propagation(cv)
                     line, regs2 = rgen.gbp_line(rg, pots, total, sweeps)
+                    if rng.random() < 0.4 and not corpus:
+                        # a second call with the SAME potentials object, on a fresh oracle (what LocalInference does on its restart path):
+                        # the answer must not depend on the first call
+                        rg_b = RegionGraph(dom, list(cliques), total, convex=False, iters=sweeps)
+                        mu = rg_b.belief_propagation(cv); info['second_call_same_potentials'] = True
+                    if any(not np.array_equal(saved[r], np.asarray(pots[r].values, dtype=float)) for r in pots):
+                        chk.violation(dict(kind='potentials-overwritten', oracle=oracle), 'gbp overwrote the caller\'s potentials in place', info, found_input=True)
                     code = [np.asarray(mu[r].values, dtype=float) for r in regs]
                     keys = regs
                 else:
@@ -83,7 +92,26 @@ def main(chk):
                         pots[c0] = Factor(pots[c0].domain, pots[c0].values + off); info['potential_offset'] = off      # adding a constant must not matter
                     if rng.random() < 0.3:
                         total = rng.choice([3.0, 77.0]); fg.total = total; info['total'] = total; info['total_reassigned'] = True
-                    mu = fg.belief_propagation(CliqueVector(pots))
+                    if rng.random() < 0.25:
+                        # a structurally impossible value: a whole slice of one potential at -inf
+                        c0 = list(cliques)[rng.randrange(len(cliques))]; v = np.array(pots[c0].values, dtype=float, copy=True)
+                        ax = rng.randrange(v.ndim)
+                        if v.shape[ax] >= 2:
+                            idx = [slice(None)] * v.ndim; idx[ax] = rng.randrange(v.shape[ax]); v[tuple(idx)] = -np.inf
+                            pots[c0] = Factor(pots[c0].domain, v); info['minus_inf_slice'] = [list(c0), ax]
+                    cv = CliqueVector(pots)
+                    if rng.random() < 0.3:
+                        # the way LocalInference drives the oracle: potentials attached to the oracle, updated in place between calls
+                        fg.potentials = cv
+                        first = {cl: Factor(pots[cl].domain, np.array(pots[cl].values, copy=True)) for cl in pots}
+                        for cl in pots:
+                            pots[cl].values[...] = np.zeros_like(pots[cl].values)
+                        fg.marginals = fg.belief_propagation(cv)        # LocalInference stores the result on the oracle
+                        for cl in pots:
+                            pots[cl].values[...] = first[cl].values
+                        info['in_place_update_between_calls'] = True
+                        fg.messages = FactorGraph(dom, list(cliques), total, convex=False, iters=sweeps).messages      # fresh messages, same oracle object
+                    mu = fg.belief_propagation(cv)
                     line = rgen.lbp_line(fg, pots, total, sweeps)
                     code = [np.asarray(mu[cl].values, dtype=float) for cl in fg.cliques]
                     keys = list(fg.cliques)
